@@ -428,6 +428,11 @@ pub open spec fn access_wf(a: Access) -> bool { a.index < a.solutions@.len() }
     oa = u.module('op_access', file='crates/vm/src/op_access.rs', uses='use crate::*;')
     oa.trait('trait OpAccess', [F('op_access', ensures='r == self.spec_op_access(index)', props=('C07', 'C09', 'C14'))],
              extra='    spec fn spec_op_access(&self, index: usize) -> Option<Result<Self::Op, Self::Error>>;')
+    # compute children and the checker hand the program on as Arc<T>: it forwards to T
+    oa.impl('impl<T> OpAccess for Arc<T> where T: OpAccess,', [
+        ('type', 'Op'), ('type', 'Error'),
+        ('spec', '''    open spec fn spec_op_access(&self, index: usize) -> Option<Result<Self::Op, Self::Error>> { (**self).spec_op_access(index) }'''),
+        F('op_access', props=('C14',))], trait_impl=True)
     # ------------------------------------------------------------------ sync dispatchers
     sy = u.module('sync', file='crates/vm/src/sync.rs', uses="""
 use crate::{alu, asm, error::{OpError, OpResult, ParentMemoryError, err_plain}, pred, repeat, total_control_flow, Memory, ProgramControlFlow, Repeat, Stack, StateReads, state_read::StateRead};
